@@ -343,6 +343,9 @@ def c17_graph(rnd):
         ["http://ex.org/data/item1", "http://ex.org/data/item12", "http://ex.org/data/it"],
         ["http://ex.org/p#a", "http://ex.org/p#b"],
         ["http://ex.org/only"],
+        ["http://ex.org/docs/report", "http://ex.org/docs/report/sec1", "http://ex.org/docs/report/sec2"],
+        ["http://ex.org/a#", "http://ex.org/a#x/y", "http://ex.org/a#x/z"],
+        ["urn:a:b", "urn:a:b:c:1", "urn:a:b:c:2"],
         ["ab", "ac"],
     ]
     classes = [M.EX + "C%d" % i for i in range(rnd.randint(1, 3))]
